@@ -6,8 +6,11 @@ package ledger
 
 import (
 	"bytes"
+	"encoding/hex"
 	"fmt"
 	"sort"
+	"strings"
+	"sync"
 	"time"
 
 	"go.sia.tech/core/consensus"
@@ -319,38 +322,58 @@ func enc(v types.EncoderTo) []byte {
 	return buf.Bytes()
 }
 
-// Canon renders the element sets canonically (sorted by id, proofs included).
+// Canon renders the element sets canonically (sorted by id, proofs included). Ledgers held by a
+// universe are immutable, so the result may be cached by the caller (see CanonCached).
 func (l *Ledger) Canon(withProofs bool) string {
 	var lines []string
-	add := func(kind string, id []byte, se types.StateElement, body []byte) {
-		p := ""
+	var buf bytes.Buffer
+	e := types.NewEncoder(&buf)
+	add := func(kind byte, id []byte, se types.StateElement, body types.EncoderTo, extra uint64) {
+		buf.Reset()
+		e.Reset(&buf)
+		e.WriteUint8(kind)
+		e.Write(id)
+		e.WriteUint64(se.LeafIndex)
+		body.EncodeTo(e)
+		e.WriteUint64(extra)
 		if withProofs {
-			p = fmt.Sprintf(" proof=%x", enc(types.EncoderFunc(func(e *types.Encoder) {
-				for _, h := range se.MerkleProof {
-					h.EncodeTo(e)
-				}
-			})))
+			e.WriteUint64(uint64(len(se.MerkleProof)))
+			for _, h := range se.MerkleProof {
+				h.EncodeTo(e)
+			}
 		}
-		lines = append(lines, fmt.Sprintf("%s %x leaf=%d body=%x%s", kind, id, se.LeafIndex, body, p))
+		e.Flush()
+		lines = append(lines, hex.EncodeToString(buf.Bytes()))
 	}
-	for id, e := range l.SCEs {
-		add("sc", id[:], e.StateElement, append(enc(types.V2SiacoinOutput(e.SiacoinOutput)), byte(e.MaturityHeight), byte(e.MaturityHeight>>8)))
+	for id, el := range l.SCEs {
+		add('c', id[:], el.StateElement, types.V2SiacoinOutput(el.SiacoinOutput), el.MaturityHeight)
 	}
-	for id, e := range l.SFEs {
-		add("sf", id[:], e.StateElement, append(enc(types.V2SiafundOutput(e.SiafundOutput)), enc(types.V2Currency(e.ClaimStart))...))
+	for id, el := range l.SFEs {
+		add('f', id[:], el.StateElement, types.EncoderFunc(func(e *types.Encoder) {
+			types.V2SiafundOutput(el.SiafundOutput).EncodeTo(e)
+			types.V2Currency(el.ClaimStart).EncodeTo(e)
+		}), 0)
 	}
-	for id, e := range l.FCEs {
-		add("fc", id[:], e.StateElement, enc(e.FileContract))
+	for id, el := range l.FCEs {
+		add('1', id[:], el.StateElement, el.FileContract, 0)
 	}
-	for id, e := range l.V2FCEs {
-		add("v2fc", id[:], e.StateElement, enc(e.V2FileContract))
+	for id, el := range l.V2FCEs {
+		add('2', id[:], el.StateElement, el.V2FileContract, 0)
 	}
 	sort.Strings(lines)
-	out := fmt.Sprintf("tip=%v leaves=%d\n", l.State.Index, l.State.Elements.NumLeaves)
-	for _, s := range lines {
-		out += s + "\n"
+	return fmt.Sprintf("tip=%v leaves=%d\n", l.State.Index, l.State.Elements.NumLeaves) + strings.Join(lines, "\n") + "\n"
+}
+
+var canonCache sync.Map // *Ledger -> string
+
+// CanonCached is Canon(true) memoised per ledger pointer (only for ledgers that are never mutated).
+func (l *Ledger) CanonCached() string {
+	if v, ok := canonCache.Load(l); ok {
+		return v.(string)
 	}
-	return out
+	s := l.Canon(true)
+	canonCache.Store(l, s)
+	return s
 }
 
 // VerifyProofs checks every stored element against the tip accumulator by building
